@@ -370,6 +370,16 @@ def do_action(case, image):
         sys.stdout = REAL_STDOUT
 
 
+def own_fd(keep):
+    """1 if the CALLER's PIL image currently holds an open descriptor (Pillow closes it by
+    itself once a single-frame image has been loaded — that is not the library's doing)."""
+    fp = getattr(keep, "fp", None)
+    try:
+        return int(fp is not None and not fp.closed and fp.fileno() >= 0)
+    except Exception:
+        return 0
+
+
 def one_fault_run(case, idx, k, exc, strong):
     cls = setup_style(case["style"], case.get("term"))
     path = source_path(case["src"], idx)
@@ -379,7 +389,7 @@ def one_fault_run(case, idx, k, exc, strong):
     if image.is_animated and case.get("pos0"):
         image.seek(case["pos0"] % image.n_frames)
     size0, tell0 = image.size, image.tell()
-    fd1 = fd_count()
+    fd1 = fd_count() - own_fd(keep)
     out = {"k": -1 if k is None else k}
     raised = ""
     with Observer(k, exc, strong) as obs:
@@ -395,7 +405,7 @@ def one_fault_run(case, idx, k, exc, strong):
     obs.opened.clear()
     gc.collect()
     out["raised"] = raised
-    out["fd_after_action"] = fd_count() - fd1          # library-opened descriptors still open
+    out["fd_after_action"] = fd_count() - own_fd(keep) - fd1   # library-opened descriptors still open
     out["size_kept"] = image.size == size0
     out["tell_kept"] = image.tell() == tell0
     alive = True
